@@ -350,7 +350,7 @@ theorem lwf_addPool {L : Ledger} (hl : LWF L) {t : Tx} {cr : List (Nat × Bool)}
   have hk := known_addPool L t
   have hmem : ∀ p, p ∈ known (addPool L t) ↔ p ∈ known L ∨ p = (t, none) := by
     intro p; rw [hk]; simp
-  refine ⟨hl.heights, ?_, hl.creditKeys, ?_, ?_, hl.noDouble, ?_, ?_, ?_, ?_, ?_⟩
+  refine ⟨hl.heights, ?_, hl.creditKeys, ?_, ?_, hl.noDouble, ?_, ?_, ?_, ?_⟩
   · rw [hk, List.map_append, List.nodup_append]
     refine ⟨hl.hashes, by simp, ?_⟩
     intro a ha b hb
@@ -386,11 +386,6 @@ theorem lwf_addPool {L : Ledger} (hl : LWF L) {t : Tx} {cr : List (Nat × Bool)}
         have : rk q.1.hash ≤ M := le_sum_of_mem _ _ (List.mem_map.mpr ⟨q, hq', rfl⟩)
         rw [← e]; omega
       · exact absurd e.symm (hs.noSelf i hi)
-  · intro u hu i hi
-    simp only [addPool, List.mem_append, List.mem_singleton] at hu
-    rcases hu with hu | rfl
-    · exact hl.poolNoChainConflict u hu i hi
-    · exact hs.noConflict i hi
   · intro p hp i hi q hq e
     rcases (hmem p).mp hp with hp' | rfl
     · rcases (hmem q).mp hq with hq' | rfl
@@ -403,6 +398,14 @@ theorem lwf_addPool {L : Ledger} (hl : LWF L) {t : Tx} {cr : List (Nat × Bool)}
     rcases (hmem p).mp hp with hp' | rfl
     · exact hl.outsBound p hp'
     · exact hs.bound
+
+theorem noConflict_addPool {L : Ledger} (hn : NoConflict L) {t : Tx} {cr : List (Nat × Bool)} (hs : SeenFresh L t cr) :
+    NoConflict (addPool L t) := by
+  intro u hu i hi
+  simp only [addPool, List.mem_append, List.mem_singleton] at hu
+  rcases hu with hu | rfl
+  · exact hn u hu i hi
+  · exact hs.noConflict i hi
 
 theorem refines_addPool {s : Store} {L : Ledger} (hg : Good s L) {t : Tx} {cr : List (Nat × Bool)}
     (hs : SeenFresh L t cr) :
@@ -539,7 +542,7 @@ theorem good_addCredit_unmined {s : Store} {L : Ledger} (hg : Good s L) {t : Tx}
       exact nodupKeys_insert _ _ _ hg.wf2.wf.nodupUC
     · have hl0 := hg.lwf
       refine ⟨hl0.heights, hl0.hashes, ?_, ?_, hl0.poolNoCb, hl0.noDouble, hl0.parents, hl0.rank,
-        hl0.poolNoChainConflict, hl0.validRefs, hl0.outsBound⟩
+        hl0.validRefs, hl0.outsBound⟩
       · rw [hL, List.map_append, List.nodup_append]
         refine ⟨hl0.creditKeys, by simp, ?_⟩
         intro a ha b hb
@@ -627,11 +630,19 @@ theorem good_addCredits_unmined {t : Tx} : ∀ (cr : List (Nat × Bool)) (s : St
     refine ⟨s2, ?_, hg2⟩
     rw [List.foldlM_cons, h1, bind_ok, h2]
 
+theorem noConflict_foldl_addCredit1 (t : Tx) : ∀ (cr : List (Nat × Bool)) (L : Ledger), NoConflict L →
+    NoConflict (cr.foldl (fun L c => addCredit1 L t c) L) := by
+  intro cr
+  induction cr with
+  | nil => intro L h; exact h
+  | cons c r ih => intro L h; exact ih _ h
+
 /-- **event *seen***: on a good pair, for a chain-consistent delivery of an unconfirmed transaction, the store calls
 succeed and the resulting store refines the ledger after `Ledger.apply` -/
 theorem good_seen {s : Store} {L : Ledger} (hg : Good s L) {t : Tx} {cr : List (Nat × Bool)} (now : Nat)
     (hc : Consistent L (.seen t cr)) :
-    ∃ s', stepEvent s now (.seen t cr) = .ok s' ∧ Good s' (Ledger.apply L (.seen t cr)) := by
+    ∃ s', stepEvent s now (.seen t cr) = .ok s' ∧ Good s' (Ledger.apply L (.seen t cr)) ∧
+      (NoConflict L → NoConflict (Ledger.apply L (.seen t cr))) := by
   unfold stepEvent addRelevantTx insertTx
   cases hk : isKnown L t.hash with
   | true =>
@@ -643,7 +654,7 @@ theorem good_seen {s : Store} {L : Ledger} (hg : Good s L) {t : Tx} {cr : List (
     have h1 : insertMemPoolTx s t = .error Err.duplicate := by
       unfold insertMemPoolTx; rw [ho]; rfl
     simp only [h1, Ledger.apply, hk, if_true]
-    exact ⟨s, rfl, hg⟩
+    exact ⟨s, rfl, hg, fun h => h⟩
   | false =>
     have hs := seenFresh_of hc hk
     obtain ⟨s1, h1, hg1⟩ := good_insertMemPool hg hs
@@ -653,7 +664,7 @@ theorem good_seen {s : Store} {L : Ledger} (hg : Good s L) {t : Tx} {cr : List (
       rw [foldl_addCredit1]
       simp [Ledger.apply, hk, addPool]
     rw [hL]
-    refine ⟨s2, ?_, hg2⟩
+    refine ⟨s2, ?_, hg2, fun hn => noConflict_foldl_addCredit1 t cr _ (noConflict_addPool hn hs)⟩
     simp only [h1, pure_eq, bind_ok, Bool.false_and, Bool.false_eq_true, if_false]
     have : (fun s (x : Nat × Bool) => match x with | (i, chg) => addCredit s t none i chg) =
         (fun s (c : Nat × Bool) => addCredit s t none c.1 c.2) := by
